@@ -142,7 +142,7 @@ Theorem reserve_any w m i n w' out r :
        /\ text_of (wmem w') r' = text_of (wmem w) r
        /\ (ok = true -> exclusive (heap (wmem w')) r' /\ repr_len r' + n <= cap_of (wmem w') r')
        /\ (ok = false -> pool w' = pool w /\ heap (wmem w') = heap (wmem w))
-       /\ (exclusive (heap (wmem w)) r -> repr_len r + n <= cap_of (wmem w) r ->
+       /\ (xcl (wmem w) r -> repr_len r + n <= cap_of (wmem w) r ->
            ok = true /\ r' = r /\ heap (wmem w') = heap (wmem w) /\ nreq (wmem w') = nreq (wmem w))
        /\ (ok = true -> nreq (wmem w') <> nreq (wmem w) ->
            is_heap r' = true /\ cap_of (wmem w') r' = amortized_growth (repr_len r) n).
@@ -316,7 +316,7 @@ Qed.
 (* appending / inserting into an exclusively owned string within its capacity: no allocator request, same buffer *)
 Theorem push_within_capacity w m i s w' out r :
   WF w -> Valid s -> exec w (OPushStr m i s) = (w', out) -> nth_error (pool w) i = Some (Some r) ->
-  exclusive (heap (wmem w)) r -> repr_len r + len s <= cap_of (wmem w) r ->
+  xcl (wmem w) r -> repr_len r + len s <= cap_of (wmem w) r ->
   out = OkUnit /\ nreq (wmem w') = nreq (wmem w)
   /\ exists r', nth_error (pool w') i = Some (Some r') /\ (forall b, names r' b = names r b) /\ is_heap r' = is_heap r
                 /\ text_of (wmem w') r' = text_of (wmem w) r ++ s.
@@ -330,7 +330,7 @@ Qed.
 Theorem insert_within_capacity w m i idx s w' out r :
   WF w -> Valid s -> exec w (OInsertStr m i idx s) = (w', out) -> nth_error (pool w) i = Some (Some r) ->
   is_char_boundary (text_of (wmem w) r) idx = true ->
-  exclusive (heap (wmem w)) r -> repr_len r + len s <= cap_of (wmem w) r ->
+  xcl (wmem w) r -> repr_len r + len s <= cap_of (wmem w) r ->
   out = OkUnit /\ nreq (wmem w') = nreq (wmem w)
   /\ exists r', nth_error (pool w') i = Some (Some r') /\ (forall b, names r' b = names r b) /\ is_heap r' = is_heap r
                 /\ text_of (wmem w') r' = insert_text (text_of (wmem w) r) idx s.
